@@ -256,6 +256,16 @@ fn scripted(v: Variant) -> Vec<Hist> {
             out.push(Hist { setup: setup_with(v, Some(base)), steps: vec![st(t0 + DAY_NS, "creator", upd_roy(new))] });
         }
     }
+    // every integer literal of the contract source read as a percentage: a raise of exactly
+    // two points onto it, +- 1 atomic (a change that special-cases a value has to name it)
+    for l in harvest_literals(&["contracts/collections/sg721-base/src/contract.rs"]) {
+        if (1..=100).contains(&l) {
+            let base = l.saturating_sub(2) * PCT;
+            for new in [l * PCT - 1, l * PCT, l * PCT + 1] {
+                out.push(Hist { setup: setup_with(v, Some(base)), steps: vec![st(t0 + DAY_NS, "creator", upd_roy(new))] });
+            }
+        }
+    }
     // first royalty on a collection created without one: only bounded by 100 %
     for new in [0u128, 10 * PCT + 1, 50 * PCT, ONE - 1, ONE, ONE + 1] {
         out.push(Hist {
